@@ -89,19 +89,25 @@ class Spy(object):
     return self._f.deriv2(r)
 
 
-class Failpoint(object):
-  """Raises InjectedFault on the k-th tick (1-based).  k=None never fires."""
+FAULT_TYPES = [InjectedFault, ValueError, ZeroDivisionError, OverflowError, StopIteration, KeyError, AttributeError, TypeError,
+               IndexError, RuntimeError, AssertionError, ArithmeticError, LookupError, FloatingPointError]
 
-  def __init__(self, k=None):
+
+class Failpoint(object):
+  """Raises on the k-th tick (1-based).  k=None never fires.  The exception type is one a failing
+  user function can plausibly raise (a domain error, an exhausted iterator, ...)."""
+
+  def __init__(self, k=None, exc_type=InjectedFault):
     self.k = k
     self.n = 0
     self.fired = False
+    self.exc_type = exc_type
 
   def tick(self):
     self.n += 1
     if self.k is not None and self.n == self.k:
       self.fired = True
-      raise InjectedFault("injected fault at evaluation %d" % self.n)
+      raise self.exc_type("INJECTED-FAULT at evaluation %d" % self.n)
 
 
 class RecordingFile(object):
